@@ -284,8 +284,15 @@ def main():
     for oid, g in list(counted.items())[:6]:
         samples.append({'obligation': oid, 'clause': g['text'], 'instances(paths)': g['n'], 'discharged': g['ok']})
     ev = {
-        'property_id': prop, 'tier': tier, 'seed': seed, 'level': 'proof',
+        'property_id': prop, 'tier': tier, 'seed': seed,
+        'level': registry.MANIFEST.get(prop, {}).get('category', 'proof'),
         'coverage': {
+            # exploration-style keys: what the bounded oracle on the real code explored in this run (never counted as proved)
+            'evaluations': int((native or {}).get('cases') or 0),
+            'distinct_nontrivial': int((native or {}).get('distinct') or 0),
+            'rule': (native or {}).get('rule') or 'no bounded oracle ran',
+            'exhaustive': bool((native or {}).get('exhaustive')),
+            'explanation': registry.MANIFEST.get(prop, {}).get('explanation', ''),
             'obligations': n_obl, 'discharged': n_ok,
             'obligation_instances': sum(g['n'] for g in counted.values()),
             'checker_cmd': 'python3-vt check.py %s --tier %s' % (prop, tier),
@@ -297,7 +304,7 @@ def main():
             'canaries_not_provable': sum(1 for g in canaries if not g['ok']), 'canaries': len(canaries),
             'known_finding_obligations': sorted(known_obl & set(agg)),
             'abstractions_applied': ledgers,
-            'samples': samples,
+            'samples': samples + [{'bounded_case': c} for c in (native or {}).get('samples', [])[:3]],
             'bounded_parts': ({'oracle': 'native/%s.py' % prop.lower(), 'label': 'bounded (never counted as proved)',
                                'cases': native.get('cases'), 'distinct': native.get('distinct'),
                                'rule': native.get('rule'), 'bound': native.get('bound'),
